@@ -7,6 +7,8 @@ extra = ""
 def job(name, props, unwind, tier="quick"):
     if "_s2" in name and not name.startswith("enc_"):
         tier = "thorough"  # the nested non-integral logical buffer costs minutes per job
+    if name in ("dec_s1_ped", "rt_s1_spec_spec", "trunc_s1_spec"):
+        tier = "thorough"  # the s1 variants cost 2-5 minutes each; one reader/writer pairing stays quick
     out.append("job %s\n  props %s\n  harness h_%s\n  unwind %d complete constant trip count <= MAXN\n%s  tier %s\n  timeout 900\n" % ("cc_" + name, props, name, unwind, extra, tier))
 for t, n in types:
     u = n + 2
